@@ -190,21 +190,31 @@ def main():
     quick = ck.tier == 'quick'
 
     lines, impl, meta = [], [], []
+    last_objs = [None, None, None, None]
 
-    def run(brty0, dep_i, dep_t, oa, ob, kind, via_connect=False):
+    def run(brty0, dep_i, dep_t, oa, ob, kind, via_connect=False, a=None, b=None, ini=None, tgt=None, hist=None):
+        """a / b / ini / tgt: objects that went through earlier activations (hist: their description); whatever the
+        history, the activation is compared with the model and judged like a first one"""
         if via_connect:
             return run_connect(brty0, dep_i, dep_t, oa, ob, kind)
-        a, b = make_llc(oa), make_llc(ob)
-        a_lsc, b_lsc = a.cfg['send-lsc'], b.cfg['send-lsc']
+        def viol(key, what, data):
+            ck.violation(('reactivated:' if hist else '') + key, ('after re-activation of the same objects: ' if hist else '') + what, data)
+        a = make_llc(oa) if a is None else a
+        b = make_llc(ob) if b is None else b
+        # what either application configured (the cfg entry 'send-lsc' holds the REMOTE value after an activation)
+        a_lsc, b_lsc = oa['lsc'], ob['lsc']
         a_lto, b_lto = a.cfg['send-lto'], b.cfg['send-lto']
         a_wks = 1 + sum(1 << s for s in saps_of(a) if s < 15)
         b_wks = 1 + sum(1 << s for s in saps_of(b) if s < 15)
         # one NFC-DEP exchange with an LLCP PDU of the negotiated maximum size in each direction
         sizes = [(oa['probe'], ob['probe'])]
-        o = air.p2p(brty0, dep_i, dep_t, a, b, sizes)
+        o = air.p2p(brty0, dep_i, dep_t, a, b, sizes, ini=ini, tgt=tgt)
         link = o['link']
         ini, tgt = link.ini, link.tgt
         case = {'brty0': brty0, 'dep_i': dep_i, 'dep_t': dep_t, 'llc_a': {k: v for k, v in oa.items()}, 'llc_b': {k: v for k, v in ob.items()}}
+        if hist:
+            case['history'] = hist
+        last_objs[:] = [a, b, ini, tgt]
         # ---- canonical observation of the implementation
         nact = o.get('n_act', len(o['frames']))
         id3 = air.FakeOs.urandom(10) if brty0 == '106A' else air.SENSF_RES[1:9] + b'ST'
@@ -238,44 +248,44 @@ def main():
         if not (valid_dep and valid_llc(oa) and valid_llc(ob)):
             return
         if not both:
-            ck.violation('activation-failed', 'activation with valid options failed: %s / %s' % (o.get('a_ok'), o.get('b_ok')), case)
+            viol('activation-failed', 'activation with valid options failed: %s / %s' % (o.get('a_ok'), o.get('b_ok')), case)
             return
         for (x, xo, y, yo, y_lsc, y_lto, y_wks, nm) in ((a, oa, b, ob, b_lsc, b_lto, b_wks, 'initiator'),
                                                         (b, ob, a, oa, a_lsc, a_lto, a_wks, 'target')):
             if x.cfg['send-miu'] != y.cfg['recv-miu']:
-                ck.violation('miu-mismatch', '%s holds send-miu %d, the peer holds recv-miu %d' % (nm, x.cfg['send-miu'], y.cfg['recv-miu']), case)
+                viol('miu-mismatch', '%s holds send-miu %d, the peer holds recv-miu %d' % (nm, x.cfg['send-miu'], y.cfg['recv-miu']), case)
             if x.cfg['recv-lto'] != y.cfg['send-lto']:
                 cls = 'above-2550' if yo['lto'] > 2559 else ('not-multiple-of-10' if yo['lto'] % 10 else 'other')
-                ck.violation('lto-mismatch:' + cls, '%s holds recv-lto %d ms, the peer holds (and was configured with) send-lto %d ms'
+                viol('lto-mismatch:' + cls, '%s holds recv-lto %d ms, the peer holds (and was configured with) send-lto %d ms'
                              % (nm, x.cfg['recv-lto'], y.cfg['send-lto']), case)
             if x.cfg['send-wks'] != y_wks:
-                ck.violation('wks-mismatch', '%s holds service list %04x, the peer offers %04x' % (nm, x.cfg['send-wks'], y_wks), case)
+                viol('wks-mismatch', '%s holds service list %04x, the peer offers %04x' % (nm, x.cfg['send-wks'], y_wks), case)
             if x.cfg['send-lsc'] != y_lsc:
-                ck.violation('lsc-mismatch', '%s holds link service class %d, the peer announced %d' % (nm, x.cfg['send-lsc'], y_lsc), case)
+                viol('lsc-mismatch', '%s holds link service class %d, the peer announced %d' % (nm, x.cfg['send-lsc'], y_lsc), case)
         lri, lrt = clamp(0, 3, dep_i.get('lri', 3)), clamp(0, 3, dep_t.get('lrt', 3))
         ov = (did is not None) + (nad is not None)
         if ini.miu + 3 + ov != LR[lrt]:
-            ck.violation('dep-miu:initiator', 'initiator payload limit %d + overhead %d does not follow the target LR %d' % (ini.miu, 3 + ov, LR[lrt]), case)
+            viol('dep-miu:initiator', 'initiator payload limit %d + overhead %d does not follow the target LR %d' % (ini.miu, 3 + ov, LR[lrt]), case)
         if tgt.miu + 3 + (did is not None) != LR[lri]:
-            ck.violation('dep-miu:target:did=%s' % (did is not None), 'target payload limit %d + overhead %d does not follow the initiator LR %d'
+            viol('dep-miu:target:did=%s' % (did is not None), 'target payload limit %d + overhead %d does not follow the initiator LR %d'
                          % (tgt.miu, 3 + (did is not None), LR[lri]), case)
         brs = clamp(0, 2, dep_i.get('brs', 2))
         exp_brty = BRTY[max(brs, BRTY.index(brty0))]
         if ini.target.brty != exp_brty or tgt.target.brty != exp_brty:
-            ck.violation('brty-mismatch', 'bit rate after activation: initiator %s, target %s, selected %s' % (ini.target.brty, tgt.target.brty, exp_brty), case)
+            viol('brty-mismatch', 'bit rate after activation: initiator %s, target %s, selected %s' % (ini.target.brty, tgt.target.brty, exp_brty), case)
         exp_rwt = 4096 / 13.56E6 * 2 ** clamp(0, 14, dep_t.get('rwt', 8))
         if ini.rwt_real != tgt.rwt or tgt.rwt != exp_rwt:
-            ck.violation('rwt-mismatch', 'response waiting time: initiator %r, target %r, announced %r' % (ini.rwt_real, tgt.rwt, exp_rwt), case)
+            viol('rwt-mismatch', 'response waiting time: initiator %r, target %r, announced %r' % (ini.rwt_real, tgt.rwt, exp_rwt), case)
         # all later traffic stays within those limits
         for d, h, fate, btx, brx, rnd in o['frames'][nact:]:
             n = len(h) // 2 - 1 - (1 if btx == '106A' else 0)
             lim = LR[lrt] if d == 'I' else LR[lri]
             if n > lim:
-                ck.violation('traffic-lr-exceeded:%s:did=%s' % (d, did is not None), 'frame of %d transport bytes exceeds LR %d of its receiver' % (n, lim), case)
+                viol('traffic-lr-exceeded:%s:did=%s' % (d, did is not None), 'frame of %d transport bytes exceeds LR %d of its receiver' % (n, lim), case)
             if btx != exp_brty or brx != exp_brty or (h[:2] == 'f0') != (exp_brty == '106A'):
-                ck.violation('traffic-brty', 'frame sent at %s / received at %s, selected %s' % (btx, brx, exp_brty), case)
+                viol('traffic-brty', 'frame sent at %s / received at %s, selected %s' % (btx, brx, exp_brty), case)
         if o['ini'] != ['ok %d' % ob['probe']] or o['tgt'][:1] != ['ok %d' % oa['probe']]:
-            ck.violation('traffic-failed:%s' % ((o['ini'] + o['tgt'] + ['?'])[0].split()[-1] if not o['ini'] or not o['ini'][0].startswith('ok') else 'target'),
+            viol('traffic-failed:%s' % ((o['ini'] + o['tgt'] + ['?'])[0].split()[-1] if not o['ini'] or not o['ini'][0].startswith('ok') else 'target'),
                          'an exchange of maximum size LLCP PDUs after activation failed: %s / %s' % (o['ini'], o['tgt']), case)
         # ... also at the LLCP layer: PDUs pending on several service access points in the same collect round; every frame
         # handed to the MAC layer has an information field within the MIU the peer announced in this configuration
@@ -285,20 +295,20 @@ def main():
                 try:
                     frames, npre = llcp_traffic(x, kinds, szs)
                 except Exception as e:  # noqa
-                    ck.violation('llcp-traffic-error:' + type(e).__name__, 'LLCP traffic after activation raised %r' % e,
+                    viol('llcp-traffic-error:' + type(e).__name__, 'LLCP traffic after activation raised %r' % e,
                                  dict(case, side=nm, kinds=kinds, sizes=szs))
                     break
                 ck.count('llcp-traffic')
                 ck.cov['evaluations'] += 1
                 for f in frames:
                     if f is not None and len(f) - 2 > peer_miu:
-                        ck.violation('llcp-traffic-miu-exceeded:agf=%s' % bool(xo['agf']),
+                        viol('llcp-traffic-miu-exceeded:agf=%s' % bool(xo['agf']),
                                      '%s sent an LLCP frame with an information field of %d octets, the peer announced MIU %d '
                                      '(PDUs of %s octets pending on %d service access points, kinds %s)'
                                      % (nm, len(f) - 2, peer_miu, szs, len(szs), kinds),
                                      dict(case, side=nm, kinds=kinds, sizes=szs, frame_len=len(f)))
                 if sum(1 for f in frames[npre:] if f is not None) == 0:
-                    ck.violation('llcp-traffic-nothing-sent', '%s: nothing was sent although PDUs were pending' % nm,
+                    viol('llcp-traffic-nothing-sent', '%s: nothing was sent although PDUs were pending' % nm,
                                  dict(case, side=nm, kinds=kinds, sizes=szs))
 
     def run_connect(brty0, dep_i, dep_t, oa, ob, kind):
@@ -355,6 +365,23 @@ def main():
         if a.cfg['recv-miu'] != oa['miu'] or b.cfg['recv-miu'] != ob['miu'] or a.cfg['send-agf'] != oa['agf'] or b.cfg['send-agf'] != ob['agf']:
             ck.violation('connect-llc-options-not-passed', 'LLC options miu/agf not in force after connect()', case)
 
+    def history(steps, kind='history'):
+        """successive activations of the SAME LogicalLinkController X (options ox) - and of its nfc.dep Initiator / Target
+        objects whenever it takes the same role again - against fresh peers with other parameters, in the given roles"""
+        X = xi = xt = None
+        hist = []
+        for st in steps:
+            ox, oy = dict(st['ox']), dict(st['oy'])
+            if st['role'] == 'I':
+                probes(ox, oy)
+                run(st['brty0'], st['dep_i'], st['dep_t'], ox, oy, kind, a=X, ini=xi, hist=list(hist))
+                X, xi = last_objs[0], last_objs[2]
+            else:
+                probes(oy, ox)
+                run(st['brty0'], st['dep_i'], st['dep_t'], oy, ox, kind, b=X, tgt=xt, hist=list(hist))
+                X, xt = last_objs[1], last_objs[3]
+            hist.append({k: st[k] for k in ('role', 'brty0', 'dep_i', 'dep_t', 'ox', 'oy')})
+
     def flush():
         if not lines:
             return
@@ -402,6 +429,15 @@ def main():
                 di = {k: v for k, v in c['llcp_a'].items() if k in ('brs', 'lri', 'lrt', 'rwt', 'acm')}
                 dt = {k: v for k, v in c['llcp_b'].items() if k in ('brs', 'lri', 'lrt', 'rwt', 'acm')}
                 run(c['brty0'], di, dt, oa, ob, 'replay', via_connect=True)
+            elif c.get('history'):
+                last = c['history'][-1]
+                cur_role = 'I' if c['llc_a'].get('miu') == last['ox'].get('miu') and c['llc_a'].get('lto') == last['ox'].get('lto') and \
+                    c['llc_a'].get('lsc') == last['ox'].get('lsc') and c['llc_a'].get('saps') == last['ox'].get('saps') else 'T'
+                cur = {'role': cur_role, 'brty0': c['brty0'], 'dep_i': c['dep_i'], 'dep_t': c['dep_t'],
+                       'ox': c['llc_a'] if cur_role == 'I' else c['llc_b'], 'oy': c['llc_b'] if cur_role == 'I' else c['llc_a']}
+                if c.get('kinds'):
+                    REPLAY_PATTERN[:] = [(c['kinds'], list(c['sizes']))]
+                history(list(c['history']) + [cur], kind='replay')
             elif 'llc_a' in c:
                 if c.get('kinds'):
                     REPLAY_PATTERN[:] = [(c['kinds'], list(c['sizes']))]
@@ -419,6 +455,11 @@ def main():
     oa, ob = llc_opts(248, 500, 3, False, [1], True), llc_opts(248, 500, 3, False, [1], True)
     probes(oa, ob)
     run('212F', {'brs': 2, 'lri': 3, 'did': 14}, {'lrt': 3}, oa, ob, 'corpus')                # length byte 256 at LR 254 with DID
+    big, bare = llc_opts(2175, 2550, 3, False, [1, 4], True), llc_opts(128, 100, 0, False, [1], True)
+    mine = llc_opts(248, 500, 1, False, [1], True)
+    for roles in ('II', 'TT'):
+        history([{'role': r, 'brty0': '106A', 'dep_i': {'brs': 0}, 'dep_t': {}, 'ox': mine, 'oy': py} for r, py in zip(roles, (big, bare))],
+                kind='corpus')
     flush()
 
     # ---------------- the DEP parameter grid x LLCP parameter combinations
@@ -483,6 +524,35 @@ def main():
         if b0 == '212F' and clamp(0, 2, di.get('brs', 2)) == 0:
             b0 = '106A'
         run(b0, di, dt, oa, ob, 'clamping')
+    flush()
+
+    # ---------------- histories: the SAME llc object (and its nfc.dep objects) activated two and three times in a row against
+    # fresh peers with other parameters (MIU, LTO, WKS, LSC, DPC; one peer omits all optional fields: 128 / 100 ms / 0),
+    # in all role sequences; after every activation the held values and the LLCP traffic reflect THIS peer only
+    peers = [dict(miu=2175, lto=2550, lsc=3, sec=True, saps=[1, 4], agf=True),
+             dict(miu=128, lto=100, lsc=0, sec=False, saps=[1], agf=True),            # omits MIUX, LTO and OPT
+             dict(miu=160, lto=10, lsc=2, sec=False, saps=[1, 4, 16], agf=False),
+             dict(miu=1000, lto=500, lsc=1, sec=True, saps=[1, 2, 3, 14], agf=True),
+             dict(miu=248, lto=1000, lsc=3, sec=False, saps=[1, 14, 15, 20], agf=True)]
+    hk = 0
+    for roles in ('II', 'IT', 'TI', 'TT', 'III', 'ITI', 'TIT', 'TTT', 'IIT', 'TTI'):
+        for rep in range(1 if quick else 4):
+            ox = llc_opts(miu=rng.choice([248, 300, 128, 2000]), lto=rng.choice([500, 100, 1500]), lsc=rng.choice([1, 2, 3]),
+                          sec=rng.random() < 0.5, saps=rng.choice([[1], [1, 4]]), agf=True)
+            steps = []
+            order = rng.sample(peers, len(roles)) if rep else [peers[(hk + i) % len(peers)] for i in range(len(roles))]
+            hk += 1
+            if rep == 0 and roles in ('II', 'TT', 'IT'):
+                order = [peers[0], peers[1]] + order[2:]        # large MIU / long LTO first, then the peer that omits the fields
+            for r, py in zip(roles, order):
+                oy = llc_opts(**py)
+                b0 = rng.choice(['106A', '212F'])
+                di = {'brs': rng.choice([1, 2]), 'lri': rng.randrange(4)}
+                if rng.random() < 0.4:
+                    di['did'] = rng.choice([1, 7])
+                steps.append({'role': r, 'brty0': b0, 'dep_i': di, 'dep_t': {'lrt': rng.randrange(4), 'rwt': rng.choice([4, 8, 10])},
+                              'ox': ox, 'oy': oy})
+            history(steps)
     flush()
 
     # ---------------- the same through ContactlessFrontend.connect(llcp=...) (option pass-through of _llcp_connect)
